@@ -114,8 +114,32 @@ def pc_status(pc, extra=()):
                 found = True
                 break
         if not found:
-            if inconclusive or idx > 0 or len(clauses) > 4096:
+            if inconclusive or len(clauses) > 4096:
                 return "unknown", "disjunctive condition not resolved greedily"
+            if idx > 0:
+                # the earlier greedy choices may be to blame: without them, can any clause of this condition be 1?
+                alone = False
+                for c in clauses:
+                    at = set(c[0])
+                    rel_ones, rel_zeros = [], []
+                    changed = True
+                    while changed:
+                        changed = False
+                        for f in ones:
+                            if f not in rel_ones and at & set(f[0]):
+                                rel_ones.append(f)
+                                at |= set(f[0])
+                                changed = True
+                        for f in zeros:
+                            if f not in rel_zeros and at & set(f[0]):
+                                rel_zeros.append(f)
+                                at |= set(f[0])
+                                changed = True
+                    if _solve_components(rel_ones + [c], rel_zeros) is not None:
+                        alone = True
+                        break
+                if alone:
+                    return "unknown", "disjunctive condition not resolved greedily"
             return "unsat", None
     r = _solve_components(ones + chosen, zeros)
     if r is None or r == "big":
@@ -170,13 +194,15 @@ class Space(object):
             return hit
         if not b[0]:
             m = self.full if b[1] else 0
-        elif b[1] == "os":
+        elif b[1] in ("os", "nos"):
             m = 0
             for t in b[2]:
                 tm = self.bit_mask(t)
                 if tm is None:
                     return None
                 m |= tm
+            if b[1] == "nos":
+                m ^= self.full
         elif b[1] == "xs":
             m = self.full if b[3] else 0
             for mon in b[2]:
@@ -543,10 +569,21 @@ def lex_order(outs, a_words, b_words, unwrap_some=False):
         if isinstance(e, W) and e.val is None:
             eqbit[e.bits[0]] = ("eq", j)
             eqbit[B.bnot(e.bits[0])] = ("ne", j)
+    # narrow words: "a < b" is an exact small function rather than a named atom
+    from .absint import w_sub
+    ltbit = {}
+    for j in range(T):
+        for (x, y, nm_pos, nm_neg) in ((a_words[j], b_words[j], "a<b", "a>=b"), (b_words[j], a_words[j], "b<a", "b>=a")):
+            _, bo = w_sub(x, y)
+            if bo is not None and bo[0]:
+                ltbit.setdefault(bo, (nm_pos, j))
+                ltbit.setdefault(B.bnot(bo), (nm_neg, j))
     bits_a = {tuple(w.all_bits()): j for j, w in enumerate(a_words)}
     bits_b = {tuple(w.all_bits()): j for j, w in enumerate(b_words)}
     chains = []
+    halves = {}
     final_seen = False
+    from .absint import ULT_OF
     for o in outs:
         if o.kind != "return":
             return None
@@ -561,11 +598,34 @@ def lex_order(outs, a_words, b_words, unwrap_some=False):
                 conds.append(("ne" if c.neg else "eq", key_of[frozenset(c.clauses)]))
             elif isinstance(c, W) and c.val is None and c.bits[0] in eqbit:
                 conds.append(eqbit[c.bits[0]])
+            elif isinstance(c, W) and c.val is None and c.bits[0] in ltbit:
+                conds.append(ltbit[c.bits[0]])
+            elif isinstance(c, W) and c.val is None and (c.bits[0] in ULT_OF or B.bnot(c.bits[0]) in ULT_OF):
+                pos = c.bits[0] in ULT_OF
+                kx, ky = ULT_OF[c.bits[0] if pos else B.bnot(c.bits[0])]
+                ja, jb = bits_a.get(kx), bits_b.get(ky)
+                if ja is not None and ja == jb:
+                    conds.append(("a<b" if pos else "a>=b", ja))
+                else:
+                    ja, jb = bits_a.get(ky), bits_b.get(kx)
+                    if ja is None or ja != jb:
+                        return None
+                    conds.append(("b<a" if pos else "b>=a", ja))
             else:
                 return None
         if conds is None:
             continue
         v = o.value
+        if isinstance(v, Agg) and v.key == "std::cmp::Ordering" and conds and conds[-1][0] in ("a<b", "a>=b", "b<a", "b>=a"):
+            kind_, j = conds[-1]
+            if len(conds) < 2 or conds[-2] != ("ne", j) or any(k != "eq" for k, _ in conds[:-2]):
+                return None
+            # given a != b:  a<b -> Less ; a>=b -> Greater ; b<a -> Greater ; b>=a -> Less
+            want = {"a<b": 0, "a>=b": 2, "b<a": 2, "b>=a": 0}[kind_]
+            if v.variant != want:
+                return None
+            halves.setdefault(j, []).append(([jj for _, jj in conds[:-1]], ("lt", True) if want == 0 else ("ge", False)))
+            continue
         if isinstance(v, Agg) and v.key == "std::cmp::Ordering":
             if v.variant != 1 or any(k != "eq" for k, _ in conds) or sorted(j for _, j in conds) != list(range(T)):
                 return None
@@ -580,6 +640,15 @@ def lex_order(outs, a_words, b_words, unwrap_some=False):
         if not conds or conds[-1] != ("ne", ja) or any(k != "eq" for k, _ in conds[:-1]):
             return None
         chains.append([j for _, j in conds])
+    # "different, then a < b ? Less : Greater" counts as the three-way comparison of that word
+    for j, pols in halves.items():
+        got = {}
+        for ch, less_when in pols:
+            got.setdefault(tuple(ch), set()).add(less_when)
+        for ch, sset in got.items():
+            if sset != {("lt", True), ("ge", False)}:
+                return None
+            chains.append(list(ch))
     if not final_seen or len(chains) != T:
         return None
     chains.sort(key=len)
@@ -626,7 +695,9 @@ def cmp_kernel_hook(facts):
                 wb = [watoms(64, "cmpB%d" % j) for j in range(L)]
                 ca, cb = new_cell(), new_cell()
                 st2.mem[ca], st2.mem[cb] = Arr(wa), Arr(wb)
-                outs = it2.call_body(body, [Ptr(ca, (), (0, L)), Ptr(cb, (), (0, L))], st2, {})
+                from .absint import ult_mode
+                with ult_mode():
+                    outs = it2.call_body(body, [Ptr(ca, (), (0, L)), Ptr(cb, (), (0, L))], st2, {})
                 rets = returns(outs)
                 if len(rets) == 1 and not panics(outs):
                     order = "native"
